@@ -69,22 +69,73 @@ theorem matches_cat {b e r1 r2 w1 w2} (h1 : Matches b r1 w1 (e && w2.isEmpty))
 
 /-! ### Smart constructors -/
 
+theorem altOf_iff {b w e} : ∀ (l : List Re), Matches b (altOf l) w e ↔ ∃ r ∈ l, Matches b r w e := by
+  intro l
+  induction l with
+  | nil => simp [altOf, not_matches_empty]
+  | cons r rs ih =>
+    cases rs with
+    | nil => simp [altOf]
+    | cons r' rs' =>
+      have : altOf (r :: r' :: rs') = .alt r (altOf (r' :: rs')) := rfl
+      rw [this, alt_iff, ih]
+      simp
+
+theorem alts_iff {b w e} : ∀ (r : Re), Matches b r w e ↔ ∃ x ∈ alts r, Matches b x w e := by
+  intro r
+  induction r with
+  | alt r1 r2 ih1 ih2 =>
+    rw [alt_iff, ih1, ih2]
+    simp only [alts, List.mem_append]
+    constructor
+    · rintro (⟨x, hx, h⟩ | ⟨x, hx, h⟩)
+      · exact ⟨x, Or.inl hx, h⟩
+      · exact ⟨x, Or.inr hx, h⟩
+    · rintro ⟨x, hx | hx, h⟩
+      · exact Or.inl ⟨x, hx, h⟩
+      · exact Or.inr ⟨x, hx, h⟩
+  | empty => simp [alts, not_matches_empty]
+  | eps => simp [alts]
+  | char c => simp [alts]
+  | any => simp [alts]
+  | cls n rs => simp [alts]
+  | cat a c _ _ => simp [alts]
+  | star a _ => simp [alts]
+  | plus a _ => simp [alts]
+  | opt a _ => simp [alts]
+  | group a _ => simp [alts]
+  | bol => simp [alts]
+  | eol => simp [alts]
+
+theorem mem_dedupRe (x : Re) : ∀ (l : List Re), x ∈ dedupRe l ↔ x ∈ l := by
+  intro l
+  induction l with
+  | nil => simp [dedupRe]
+  | cons r rs ih =>
+    unfold dedupRe
+    by_cases hr : r ∈ rs
+    · rw [if_pos hr, ih]
+      constructor
+      · intro h; exact List.mem_cons_of_mem _ h
+      · intro h
+        rcases List.mem_cons.mp h with h | h
+        · subst h; exact hr
+        · exact h
+    · rw [if_neg hr]
+      simp [ih]
+
 theorem mkAlt_iff {b x y w e} : Matches b (mkAlt x y) w e ↔ Matches b x w e ∨ Matches b y w e := by
-  by_cases hx : x = .empty
-  · subst hx
-    simp [mkAlt, not_matches_empty]
-  · have hm : mkAlt x y = if y = .empty then x else if x = y then x else .alt x y := by
-      cases x <;> simp_all [mkAlt]
-    rw [hm]
-    by_cases hy : y = .empty
-    · subst hy
-      simp [not_matches_empty]
-    · rw [if_neg hy]
-      by_cases hxy : x = y
-      · subst hxy
-        simp
-      · rw [if_neg hxy]
-        exact alt_iff
+  unfold mkAlt
+  rw [altOf_iff, alts_iff x, alts_iff y]
+  constructor
+  · rintro ⟨r, hr, h⟩
+    rw [mem_dedupRe, List.mem_append] at hr
+    rcases hr with hr | hr
+    · exact Or.inl ⟨r, hr, h⟩
+    · exact Or.inr ⟨r, hr, h⟩
+  · rintro (⟨r, hr, h⟩ | ⟨r, hr, h⟩)
+    · exact ⟨r, (mem_dedupRe _ _).mpr (List.mem_append.mpr (Or.inl hr)), h⟩
+    · exact ⟨r, (mem_dedupRe _ _).mpr (List.mem_append.mpr (Or.inr hr)), h⟩
 
 theorem cat_empty_left {b y w e} : ¬ Matches b (.cat .empty y) w e := by
   intro h
